@@ -9,9 +9,10 @@ From FositeModel Require Import Base.Str Model.Locks Proofs.LocksProofs Proofs.L
   Model.ConcStore Cases.CasesC19 Proofs.MonitorC19 Proofs.SchedProofs.
 
 (* every event sequence a thread can produce by running methods of an accepted table — any
-   control flow through the method bodies, calls to other store methods expanded, deferred
-   releases — keeps the discipline at run time: guards held at every access, no re-acquisition,
-   acquisitions in rank order, everything released at the end *)
+   control flow through the method bodies, returns at the marked return points, calls to other
+   store methods expanded, deferred releases, explicit unlocks — keeps the discipline at run time:
+   guards held at every access, no re-acquisition, acquisitions in rank order, every unlock of a
+   held mutex, everything released when the method returns *)
 Theorem C19_paths_keep_discipline : forall ms p,
   lock_discipline_ok ms = true -> tpath ms p ->
   run (G_of ms) (rk_of ms) [] p = Some [].
@@ -80,6 +81,30 @@ Theorem C19_repaired_revoke_shape_accepted :
 Proof. exact (conj repaired_accepted repaired_shape_never_races). Qed.
 Print Assumptions C19_repaired_revoke_shape_accepted.
 
+(* Explicit Unlock and early returns (the fragment now covers `Lock()` without defer, a top-level
+   `Unlock()`, and return points): a method that can return with a mutex it locked still held is
+   rejected ([held-at-return]), and the rejection is semantic: for the shape of a
+   SetClientAssertionJWT whose "already known" path returns before the Unlock, a state is
+   reachable in which not every thread has finished and no thread can step (the goroutine's next
+   call waits for the mutex its previous call leaked).  The same method with the Unlock on every
+   path is accepted. *)
+Theorem C19_leaked_lock_shape_refuted :
+  diagnose [m_setjwt_leaky; m_jwtvalid] = ["held-at-return:SetClientAssertionJWT:blacklistedJTIsMutex"] /\
+  exists progs s, Forall (tpath [m_setjwt_leaky; m_jwtvalid]) progs /\ steps (init progs) s /\
+                  ~ finished s /\ ~ exists s', step s s'.
+Proof. exact (conj leaky_tags leaky_shape_deadlocks). Qed.
+Print Assumptions C19_leaked_lock_shape_refuted.
+
+(* the access/refresh-token methods as translated from the repaired tree (0f6e2d9, 208b00a:
+   RevokeAccessToken takes the index mutex, then the table mutex, and loops over AccessTokens) are
+   accepted, hence race- and deadlock-free for any threads and schedules *)
+Theorem C19_repaired_tree_shapes_accepted :
+  lock_discipline_ok tbl_current = true /\
+  forall progs s, Forall (tpath tbl_current) progs -> steps (init progs) s ->
+    ~ race s /\ (finished s \/ exists s', step s s').
+Proof. exact (conj current_accepted current_shape_safe). Qed.
+Print Assumptions C19_repaired_tree_shapes_accepted.
+
 (* ------------------------------------------------------------------ interleavings at storage-call granularity
    A concurrent execution of API operations is, at the store, a sequence of storage calls each
    taking effect atomically (the lock theorems above); the final state is BY DEFINITION of the model
@@ -105,6 +130,29 @@ Theorem C19_schedule_monitor_quiet_on_model : forall clients (log : list entry) 
   sched_mon clients log s minted 0 = None.
 Proof. exact sched_mon_quiet. Qed.
 Print Assumptions C19_schedule_monitor_quiet_on_model.
+
+(* Repaired store (commit 208b00a): revocation reaches EVERY access token of the request.  For
+   every sequence of storage calls with pairwise distinct creation keys, an access token created
+   under request id r and followed, later in the sequence, by RevokeAccessToken r is dead after the
+   whole sequence — whichever signature the request-id index happens to hold. *)
+Theorem C19_revoked_access_token_is_dead : forall clients calls k,
+  distinct_creates calls = true ->
+  revoked_later k calls = Some true ->
+  live (replay clients cs0 calls) TAccess k = false.
+Proof. exact revoked_access_token_is_dead. Qed.
+Print Assumptions C19_revoked_access_token_is_dead.
+
+(* one step, any store state: after RevokeAccessToken r — and after a RotateRefreshToken r that
+   answered nil — no access-token record of request r is left *)
+Theorem C19_revoke_clears_every_access_token_of_the_request : forall clients s r k,
+  ~ In (k, r) (c_at (fst (sstep clients s (VAt r)))).
+Proof. exact revoke_step_clears_request. Qed.
+Print Assumptions C19_revoke_clears_every_access_token_of_the_request.
+
+Theorem C19_rotate_clears_every_access_token_of_the_request : forall clients s r k0 k,
+  snd (sstep clients s (Rot r k0)) = K -> ~ In (k, r) (c_at (fst (sstep clients s (Rot r k0)))).
+Proof. exact rotate_step_clears_request. Qed.
+Print Assumptions C19_rotate_clears_every_access_token_of_the_request.
 
 (* Stated, not proved (C19_atomicity_partial): "every execution of the store's methods under the
    event-level semantics of Model/Locks.v is equivalent to one in which each two-phase method runs
